@@ -29,6 +29,14 @@ EXPECT = {
 }
 
 
+def step_method(P):
+    """AbstractIntegratorRep's internal-step method, identified by what it does (not by its name): the one method of the class that both
+    attempts a DAE step and reports triggered events"""
+    c = [g for g in P.methods_of(AIR) if any(str(e.get("fn", "")).endswith("::attemptDAEStep") for _, _, e in g.calls()) and
+         any(str(e.get("fn", "")).endswith("::setTriggeredEvents") for _, _, e in g.calls())]
+    return c[0] if len(c) == 1 else None
+
+
 def status_of(e):
     if not is_call(e, SETST):
         return None
@@ -142,7 +150,9 @@ def typestate(chk, P, cls):
                   "after entering FinalTimeHasBeenReturned the call must return EndOfSimulation", p)
     # T2: refusal
     def is_step(q):
-        return q["k"] == "call" and q.get("fn", "").split("::")[-1] in ("takeOneStep", "step") and not q.get("fn", "").startswith("std::")
+        sm = step_method(P)
+        return q["k"] == "call" and not q.get("fn", "").startswith("std::") and \
+            ((sm is not None and q.get("fid") == sm.id) or q.get("fn", "").split("::")[-1] in ("takeOneStep", "step"))
     refuse_blocks = set()
     for b, blk in f.blocks.items():
         c = blk.get("case")
@@ -175,7 +185,7 @@ def typestate(chk, P, cls):
                                 bool(sx_find(y, lambda z: z[0] == "call" and z[1].endswith("::getAdvancedTime"))) and
                                 bool(sx_find(y, lambda z: (z[0] == "var" and z[1] in fin_vars) or (z[0] == "mem" and z[2].endswith("::userFinalTime"))))))
         tests = {b for b, blk in f.blocks.items() if blk.get("term") and blk["term"].get("cond") is not None and final_test(blk["term"]["cond"])}
-        chk.shape(bool(tests) and bool(fin_vars), "TYPESTATE", short + ":T7:final-time-tests-exist", f.loc, "%d comparisons of getAdvancedTime() with the final time" % len(tests))
+        chk.shape(bool(tests) and bool(fin_vars), "TYPESTATE", short + ":T7:final-time-tests-exist", f.loc, "%d comparisons of getAdvancedTime() with the final time in stepTo" % len(tests))
         # the default label of the status switch is unreachable when the switch covers every enumerator (T5 below judges that)
         dflt = set()
         en7 = P.enums.get(IR + "::StepCommunicationStatus")
@@ -199,9 +209,30 @@ def typestate(chk, P, cls):
         bound = {bb for bb, blk in f.blocks.items() for ev in blk["ev"] if ev["k"] == "assign" and var_of(ev["lhs"]) in reason_vars and
                  sx_enums(ev.get("rhs")) and not any(x.endswith("InvalidSuccessfulStepStatus") for x in sx_enums(ev["rhs"]))}
         tests = tests | bound
+        # the examination may also sit in a helper that is handed the final time: a call passing the final-time variable to a function that compares
+        # getAdvancedTime() with that parameter on every path on which it answers "no reason to return" (InvalidSuccessfulStepStatus)
+        def examines(q):
+            if q.get("k") != "call" or not q.get("fid"):
+                return False
+            a = call_args(q)
+            pos = [n for n, x in enumerate(a) if var_of(x) in fin_vars]
+            if not pos:
+                return False
+            for g in P.by_id.get(q["fid"], []):
+                ps = [p_[0] for p_ in g.d.get("params", [])]
+                if not g.blocks or max(pos) >= len(ps):
+                    continue
+                pv = {ps[n] for n in pos}
+                gt = {bb for bb, blk in g.blocks.items() if blk.get("term") and blk["term"].get("cond") is not None and
+                      sx_find(blk["term"]["cond"], lambda y: y[0] == "op" and y[1] in (">=", ">", "<", "<=") and
+                              bool(sx_find(y, lambda z: z[0] == "call" and z[1].endswith("::getAdvancedTime"))) and bool(sx_find(y, lambda z: z[0] == "var" and z[1] in pv)))}
+                none_rets = [r for _, _, r in g.events(lambda r: r["k"] == "ret" and any(x.endswith("InvalidSuccessfulStepStatus") for x in sx_enums(r.get("val"))))]
+                if gt and none_rets and all(g.path_exists(None, lambda r, r0=r0: r is r0, lambda r: False, avoid_blocks=gt, lift=0) is None for r0 in none_rets):
+                    return True
+            return False
         for n, (b, i, e) in enumerate(steps):
-            p = f.path_exists(None, lambda q: q is e, lambda q: False, avoid_blocks=tests, avoid_edges=dflt)
-            p2 = f.path_exists((b, i), lambda q: q is e, lambda q: False, avoid_blocks=tests, avoid_edges=dflt)
+            p = f.path_exists(None, lambda q: q is e, examines, avoid_blocks=tests, avoid_edges=dflt, lift=0)
+            p2 = f.path_exists((b, i), lambda q: q is e, examines, avoid_blocks=tests, avoid_edges=dflt, lift=0)
             chk.judge(p is None and p2 is None, "TYPESTATE", short + ":T7:final-time-tested-before-every-step#%d" % n, "%s:%d" % (f.file, e["line"]),
                       "a further internal step is taken on a path that never compared the advanced time with the final time: an advanced state that has reached the "
                       "final time (for instance the one behind a returned event window) would be stepped from instead of being returned as EndOfSimulation", p or p2)
@@ -238,7 +269,8 @@ def reachdef(chk, P):
     f = P.fn(AIR + "::stepTo")
     sched = f.d["params"][1][0]
     rep = f.d["params"][0][0]
-    calls = list(f.calls(AIR + "::takeOneStep"))
+    sm = step_method(P)
+    calls = [(b, i, e) for b, i, e in f.calls() if sm is not None and e.get("fid") == sm.id]
     chk.shape(len(calls) == 1, "REACHDEF", "Abstract:one-takeOneStep", f.loc, "one takeOneStep call site")
     for b, i, e in calls:
         a = call_args(e)
@@ -289,7 +321,9 @@ def window(chk, P):
     chk.rule("WINDOW", "AbstractIntegratorRep::takeOneStep: an event window (tLow,tHigh] is reported (setTriggeredEvents) only on paths that compared the pending report "
              "time with both window ends -- either the early exit guarded by !(tLow < tReport && tReport < tHigh) or the bisection loop, whose split point is tReport "
              "whenever tReport lies strictly inside the current window: a report time can then never be strictly inside a reported window")
-    f = P.fn(AIR + "::takeOneStep")
+    f = step_method(P)
+    if not chk.shape(f is not None, "WINDOW", "internal-step-method", "", "the AbstractIntegratorRep method that attempts DAE steps and reports triggered events"):
+        return
     trep = f.d["params"][1][0]
     sites = [(b, i, e) for b, i, e in f.calls(IR + "::setTriggeredEvents")]
     chk.shape(len(sites) >= 1, "WINDOW", "report-sites", f.loc, "sites that report an event window (found %d)" % len(sites))
